@@ -467,6 +467,17 @@ def make_grid(dims):
             if cols[d]:
                 grid.append(cols[d].pop(0))
         i += 1
+        if i == 1:
+            # progress and workers select another code path of the library (indicator loop, pool path): every
+            # pair of them, and each with logging at its most talkative
+            talk = dims["log"][0] if dims.get("log") else None
+            pw = [("progress", v) for v in dims.get("progress", [])[:1]] + [("workers", v) for v in dims.get("workers", [])[:2]]
+            for a in range(len(pw)):
+                for b in range(a + 1, len(pw)):
+                    if pw[a][0] != pw[b][0]:
+                        grid.append(dict([pw[a], pw[b]]))
+                if talk is not None:
+                    grid.append(dict([pw[a], ("log", talk)]))
     return grid
 
 
@@ -510,8 +521,8 @@ ROUTES = ("reader", "catalog", "calls", "probe")
 
 def gen_cases(ctx, base, grid, dims, loggers, modules):
     rng = random.Random(ctx.rng.getrandbits(64))
-    ncases = ctx.n(30, 260)
-    per_case_grid = max(2, -(-len(grid) // ncases)) if ctx.quick() else 3
+    ncases = max(ctx.n(30, 260), -(-len(grid) // 2))       # quick: two entries of the grid per case, the whole grid
+    per_case_grid = 2 if ctx.quick() else 3
     cases, g = [], 0
     for idx in range(ncases):
         if rng.random() < 0.7:
